@@ -84,6 +84,7 @@ macro_rules! header_class {
     ($name:ident, $v:expr, $c:expr, $b:expr, $f:expr) => {
         #[kani::proof]
         #[kani::stub(std::fmt::format, vio::fmt_stub)]
+        #[kani::stub(std::string::String::from_utf8_lossy, segio::lossy_stub)]
         #[kani::unwind(6)]
         fn $name() { header_bytes($v, $c, $b, $f) }
     };
@@ -137,6 +138,7 @@ fn write_parse_same_layout(h: &M2Header) {
 /// version-wod-275: the number written for WoD, 275, is read back as Legion)
 #[kani::proof]
 #[kani::stub(std::fmt::format, vio::fmt_stub)]
+#[kani::stub(std::string::String::from_utf8_lossy, segio::lossy_stub)]
 #[kani::unwind(13)]
 fn c13a_header_new_well_formed() {
     let mut k = 1;
@@ -157,6 +159,7 @@ macro_rules! new_write_parse {
     ($name:ident, $v:expr) => {
         #[kani::proof]
         #[kani::stub(std::fmt::format, vio::fmt_stub)]
+        #[kani::stub(std::string::String::from_utf8_lossy, segio::lossy_stub)]
         #[kani::unwind(6)]
         fn $name() {
             let mut h = M2Header::new($v);
@@ -176,6 +179,7 @@ new_write_parse!(c13a_header_new_write_parse_cataclysm, M2Version::Cataclysm);
 new_write_parse!(c13a_header_new_write_parse_legion, M2Version::Legion);
 #[kani::proof]
 #[kani::stub(std::fmt::format, vio::fmt_stub)]
+#[kani::stub(std::string::String::from_utf8_lossy, segio::lossy_stub)]
 #[kani::unwind(6)]
 fn c13a_header_new_vanilla_witness() {
     let h = M2Header::new(M2Version::Vanilla);
@@ -216,6 +220,7 @@ fn common_fields_kept(a: &M2Header, b: &M2Header) -> bool {
 /// convert(v -> v) changes nothing
 #[kani::proof]
 #[kani::stub(std::fmt::format, vio::fmt_stub)]
+#[kani::stub(std::string::String::from_utf8_lossy, segio::lossy_stub)]
 #[kani::unwind(9)]
 fn c13a_header_convert_same_version_identity() {
     // MoP shares the number 272 with Cataclysm (documented) and WoD's 275 is read as Legion (known finding version-wod-275):
@@ -270,6 +275,7 @@ macro_rules! convert_from {
     ($name:ident, $from:expr) => {
         #[kani::proof]
         #[kani::stub(std::fmt::format, vio::fmt_stub)]
+        #[kani::stub(std::string::String::from_utf8_lossy, segio::lossy_stub)]
         #[kani::unwind(6)]
         fn $name() {
             let k: usize = kani::any();
@@ -287,6 +293,7 @@ convert_from!(c13a_header_convert_from_legion, M2Version::Legion);
 /// witness: Cataclysm header with USE_TEXTURE_COMBINERS converted to WotLK keeps the flag but drops the array the flag announces
 #[kani::proof]
 #[kani::stub(std::fmt::format, vio::fmt_stub)]
+#[kani::stub(std::string::String::from_utf8_lossy, segio::lossy_stub)]
 #[kani::unwind(6)]
 fn c13a_header_convert_flags_witness() {
     let mut h = M2Header::new(M2Version::Cataclysm);
@@ -300,6 +307,7 @@ fn c13a_header_convert_flags_witness() {
 /// witness: the version number the library writes for WoD is parsed as Legion (which has one more header array)
 #[kani::proof]
 #[kani::stub(std::fmt::format, vio::fmt_stub)]
+#[kani::stub(std::string::String::from_utf8_lossy, segio::lossy_stub)]
 #[kani::unwind(6)]
 fn c13a_version_wod_275_witness() {
     let n = M2Version::WoD.to_header_version();
@@ -309,6 +317,7 @@ fn c13a_version_wod_275_witness() {
 /// every version number the library writes is read back as the same version (MoP shares 272 with Cataclysm: documented)
 #[kani::proof]
 #[kani::stub(std::fmt::format, vio::fmt_stub)]
+#[kani::stub(std::string::String::from_utf8_lossy, segio::lossy_stub)]
 #[kani::unwind(6)]
 fn c13a_version_number_roundtrip() {
     let k: usize = kani::any();
@@ -321,6 +330,7 @@ fn c13a_version_number_roundtrip() {
 
 #[kani::proof]
 #[kani::stub(std::fmt::format, vio::fmt_stub)]
+#[kani::stub(std::string::String::from_utf8_lossy, segio::lossy_stub)]
 #[kani::unwind(6)]
 fn c13a_header_canary() {
     let h = some_header(M2Version::WotLK);
